@@ -183,6 +183,8 @@ end fft
 /-- each FFT formula reads exactly the locals / fields the model feeds it -/
 theorem fft_formulas_read_the_expected_fields :
     Formulas.fftFormulaParams = [
+    ("mkInterp_sinc_len", ["sinc_len"]),
+    ("mkInterp_f_cutoff", ["resample_ratio", "f_cutoff"]),
     ("fftIo_new_gcd", ["sample_rate_input", "sample_rate_output"]),
     ("fftIo_new_min_chunk_in", ["sample_rate_input", "gcd"]),
     ("fftIo_new_fft_chunks", ["chunk_size_in", "min_chunk_in"]),
